@@ -342,6 +342,15 @@ pub fn fuzz(pool: &[Op], n: usize, rng: &mut Rng, emit: &mut dyn FnMut(Op)) {
         if data_args.is_empty() {
             continue;
         }
+        if data_args.len() >= 2 && rng.chance(1, 12) {
+            // one argument becomes a copy of another (a name spelled like the pattern, a path equal
+            // to the recorded name, ...), optionally followed by an ordinary mutation
+            let i = data_args[rng.below(data_args.len())];
+            let j = data_args[rng.below(data_args.len())];
+            if i != j {
+                op.args[i] = op.args[j].clone();
+            }
+        }
         for _ in 0..rng.range(1, 3) {
             let i = data_args[rng.below(data_args.len())];
             op.args[i] = mutate_arg(rng, &op.args[i]);
